@@ -36,6 +36,8 @@ struct Case {
     calls: usize,
     /// additivity sub-check on a network with a feedback block (plain SGD)
     additive: bool,
+    /// sub-check: the same training with and without validation data (dropout layers present)
+    val_invariance: bool,
 }
 
 fn decode(tape: &[u32]) -> Case {
@@ -60,7 +62,29 @@ fn decode(tape: &[u32]) -> Case {
     let fitted = t.chance(1, 6);
     let calls = if t.chance(1, 4) { 2 } else { 1 };
     let additive = t.chance(1, 8);
-    let mut case = Case { spec, kind, obj, n, batch, epochs: t.usize(1, 4) as i32, wseed: t.raw(), dseed: t.raw(), fitted, calls, additive };
+    let mut case = Case { spec, kind, obj, n, batch, epochs: t.usize(1, 4) as i32, wseed: t.raw(), dseed: t.raw(), fitted, calls, additive, val_invariance: false };
+    if !additive && t.chance(1, 8) {
+        // a network with dropout on (de)convolution and dense layers, ending in a dense layer
+        let oo = GenOpts { max_layers: 2, max_hw: 4, max_c: 2, max_dense: 5, allow_feedback: true, allow_dropout: true, end_dense: true, acts: &[ActK::Linear, ActK::Tanh, ActK::Sigmoid, ActK::Leaky], ..GenOpts::default() };
+        let mut sp = gen_net(&mut t, &oo);
+        let mut any = false;
+        for l in sp.layers.iter_mut() {
+            if let LayerSpec::Conv { dropout, .. } | LayerSpec::Deconv { dropout, .. } | LayerSpec::Dense { dropout, .. } = l {
+                if dropout.is_none() && !any {
+                    *dropout = Some(t.usize(200, 700) as u32);
+                }
+                any = true;
+            }
+        }
+        case.spec = sp;
+        case.obj = ObjK::MSE;
+        case.val_invariance = true;
+        case.epochs = t.usize(2, 4) as i32;
+        case.n = t.usize(2, 6);
+        case.batch = t.usize(1, case.n);
+        case.calls = 1;
+        case.fitted = false;
+    }
     if additive {
         // dense -> feedback block with mixed bias settings -> dense, plain SGD, two samples in one group
         let w = t.usize(1, 4);
@@ -167,9 +191,65 @@ fn check_additive(case: &Case, ev: &mut CaseEv) -> CheckResult {
     Ok(())
 }
 
+/// Validation data is only looked at: training with it must give the same weights and training
+/// losses as training without it (dropout masks included).
+fn check_val_invariance(case: &Case, ev: &mut CaseEv) -> CheckResult {
+    let spec = &case.spec;
+    ev.class("training with vs without validation data (dropout layers)");
+    let n_in = count(&spec.input);
+    let out_dims = final_dims(spec);
+    let xs: Vec<Tensor> = (0..case.n).map(|i| tens::build(&spec.input, &payload(case.dseed.wrapping_add(i as u32 * 101), 1, n_in, 1.0))).collect();
+    let ys: Vec<Tensor> = (0..case.n).map(|i| tens::build(&out_dims, &payload(case.dseed.wrapping_add(9000 + i as u32 * 37), 1, count(&out_dims), 1.0))).collect();
+    let (xr, yr): (Vec<&Tensor>, Vec<&Tensor>) = (xs.iter().collect(), ys.iter().collect());
+    let net0 = build(spec).map_err(|p| Fail::new(format!("valid network rejected: {} ({:?})", p, spec)))?;
+    let ps0 = seeded_params(&net0, spec, case.wseed, 1, 1.0);
+    let run = |with_val: bool| -> Result<(Vec<f32>, Vec<Vec<f32>>), String> {
+        let mut net = build(spec)?;
+        apply_params(&mut net, &ps0);
+        net.set_objective(lib_obj(ObjK::MSE), None);
+        let kind = case.kind.clone();
+        catch(std::panic::AssertUnwindSafe(|| net.set_optimizer(kind.create())))?;
+        let (tl, _, _) = catch(std::panic::AssertUnwindSafe(|| if with_val { net.learn(&xr, &yr, Some((&xr, &yr, 1000)), case.batch, case.epochs, None) } else { net.learn(&xr, &yr, None, case.batch, case.epochs, None) }))?;
+        Ok((tl, collect_params(&net).iter().map(|(_, t)| tens::flat(t)).collect()))
+    };
+    let a = match run(false) {
+        Ok(v) => v,
+        Err(p) => {
+            ev.discard = Some(if p.contains("Loss is NaN") { "training diverged to NaN" } else { "training panicked (block the library cannot train)" });
+            return Ok(());
+        }
+    };
+    let b = match run(true) {
+        Ok(v) => v,
+        Err(p) => {
+            if p.contains("Loss is NaN") {
+                ev.discard = Some("training diverged to NaN");
+                return Ok(());
+            }
+            fail!("learn with validation data panicked although the same run without it did not: {} ({:?})", p, spec);
+        }
+    };
+    if a.1.iter().flatten().any(|v| !v.is_finite()) {
+        ev.discard = Some("non-finite weights");
+        return Ok(());
+    }
+    ensure!(a.0.len() == b.0.len() && a.0.iter().zip(b.0.iter()).all(|(p, q)| p.to_bits() == q.to_bits()), "training losses with validation data {:?} differ from those without {:?} ({} epochs, batch {}); spec {:?}", b.0, a.0, case.epochs, case.batch, spec);
+    for (k, (wa, wb)) in a.1.iter().zip(b.1.iter()).enumerate() {
+        if let Some(i) = tens::first_bit_diff(wa, wb) {
+            fail!("passing validation data to learn() changed the trained weights (parameter tensor #{} element {}: {:e} vs {:e}; {} epochs, batch {}): validation must not influence the per-sample gradients; spec {:?}", k, i, wb[i], wa[i], case.epochs, case.batch, spec);
+        }
+    }
+    ev.nontrivial = case.epochs >= 2;
+    ev.set_sig(&(spec, case.n, case.batch, case.epochs, "val-invariance"));
+    Ok(())
+}
+
 fn check(case: &Case, ev: &mut CaseEv) -> CheckResult {
     if case.additive {
         return check_additive(case, ev);
+    }
+    if case.val_invariance {
+        return check_val_invariance(case, ev);
     }
     let spec = &case.spec;
     ev.class(format!("optimizer:{}", case.kind.name()));
@@ -324,7 +404,7 @@ impl Prop for C04 {
         Some(3)
     }
     fn rule(&self) -> String {
-        "tape-decoded training run: 1-3-layer network (dense, convolution, deconvolution, max-pool mixes, no dropout), one of five optimizers with option variants, one of seven objectives (sigmoid head for the probability objectives), N = 1..12 distinct samples (1/8 of the cases: N = 65..140 with B >= 60, i.e. groups beyond the internal 64-sample chunk), B = 1..N+3 (B = 1, B not dividing N, B > N all occur), in 1/6 of the cases the first group's targets equal the initial predictions bit for bit (zero loss and gradient), E = 1..4 epochs, known start weights; one run in four calls learn() twice on the same network (step numbers restart at 1 in every call); one case in eight is the additivity sub-check: plain SGD, a dense -> feedback block (mixed bias settings) -> dense network, one group of 2-4 samples must move every parameter by the sum of the single-sample steps. Oracle: replayed reference trainer (groups of B in order, per-sample gradients at the pre-step weights from a never-trained second instance, summed in order, one step of a separately constructed optimizer with step number = epoch, loss = mean over groups of mean per-sample loss); final weights and the loss vector must agree within 1e-4 relative / 1e-6 absolute (bit-identical today). Non-trivial: >= 2 groups, B >= 2 and (B does not divide N or E >= 2). Distinct = (architecture, N, B, E, optimizer, objective).".into()
+        "tape-decoded training run: 1-3-layer network (dense, convolution, deconvolution, max-pool mixes, no dropout), one of five optimizers with option variants, one of seven objectives (sigmoid head for the probability objectives), N = 1..12 distinct samples (1/8 of the cases: N = 65..140 with B >= 60, i.e. groups beyond the internal 64-sample chunk), B = 1..N+3 (B = 1, B not dividing N, B > N all occur), in 1/6 of the cases the first group's targets equal the initial predictions bit for bit (zero loss and gradient), E = 1..4 epochs, known start weights; one run in four calls learn() twice on the same network (step numbers restart at 1 in every call); one case in eight compares training with and without validation data on networks with dropout layers (weights and training losses must be bit-identical); one case in eight is the additivity sub-check: plain SGD, a dense -> feedback block (mixed bias settings) -> dense network, one group of 2-4 samples must move every parameter by the sum of the single-sample steps. Oracle: replayed reference trainer (groups of B in order, per-sample gradients at the pre-step weights from a never-trained second instance, summed in order, one step of a separately constructed optimizer with step number = epoch, loss = mean over groups of mean per-sample loss); final weights and the loss vector must agree within 1e-4 relative / 1e-6 absolute (bit-identical today). Non-trivial: >= 2 groups, B >= 2 and (B does not divide N or E >= 2). Distinct = (architecture, N, B, E, optimizer, objective).".into()
     }
     fn run_case(&self, tape: &[u32], ev: &mut CaseEv) -> CheckResult {
         check(&decode(tape), ev)
